@@ -27,6 +27,26 @@ def to_smt2(ob, want_model=False, with_axioms=True):
     return txt
 
 
+class FrozenOb:
+    """an obligation generated in a worker process: its queries as SMT-LIB text plus the bookkeeping fields (z3 terms do not travel
+    between processes).  discharge() sends exactly the text it would have produced from the live obligation."""
+    frozen = True
+
+    def __init__(self, ob, want_model=True):
+        self.oid, self.kind, self.where, self.canary, self.path = ob.oid, ob.kind, ob.where, ob.canary, ob.path
+        self.variant = repr(getattr(ob, "variant", None))
+        self.goal_true = z3.is_true(ob.goal)
+        self.n_axioms = len(ob.axioms)
+        self.n_req = len(getattr(ob, "req_axioms", []))
+        self.txt = self.txt_noax = self.txt_req = None
+        if not self.goal_true:
+            self.txt = to_smt2(ob, want_model=want_model)
+            if self.n_axioms >= 1:
+                self.txt_noax = to_smt2(ob, with_axioms=False)
+                if 0 < self.n_req < self.n_axioms:
+                    self.txt_req = to_smt2(ob, with_axioms="req")
+
+
 def uses_strings(txt):
     return "String" in txt or "str." in txt
 
@@ -130,6 +150,17 @@ def discharge(obligations, timeout=10, jobs=None, want_models=True):
     tasks = []
     for i, ob in enumerate(obligations):
         # trivial cases without a process
+        if getattr(ob, "frozen", False):
+            if ob.goal_true:
+                tasks.append(None)
+                continue
+            stages = []
+            if ob.txt_noax is not None:
+                stages.append(("noaxioms", ob.txt_noax))
+                if ob.txt_req is not None:
+                    stages.append(("requested-lemmas", ob.txt_req))
+            tasks.append((i, ob.txt, timeout, uses_strings(ob.txt), stages))
+            continue
         g = ob.goal
         if z3.is_true(g):
             tasks.append(None)
